@@ -153,7 +153,7 @@ PROPS["C10"] = dict(
     modules=["contracts.c_pipeline", "contracts.c_dsa"],
     not_decided=["the closure as a deductive statement: it ranges over updater, signer, finalizer, extractor, sighash and the interpreter (>40 functions, dynamic dispatch) and no function-level contract within the executed subset states it",
                  "'a signature never verifies for a different key' for all keys (unforgeability): sampled, not proved",
-                 "psbt version 2 through the pipeline; musig2 and combo descriptors"],
+                 "musig2 and combo descriptors; psbts created as version 2 (here: version 0 converted with to_v2 before signing)"],
     assumptions=["sha256 / ripemd160 of hashlib; the engine's verdict is the oracle of this property by its own statement (C08 holds the engine to Core)"],
     explanation="Bounded stand-in on a sidecar driver over the real roles (descriptor Updater, psbt.sign with the library's SoftwareSigner, finalize, extract_tx, verify_transaction): every generated spend is accepted and every committed single-field alteration rejected; BIP322 and Bitcoin message signatures verify only for their own message, address and key. Not proved.",
     bounded=[],
